@@ -12,8 +12,9 @@ names=(default decimal_pure_go math_big_pure_go both_pure)
 tags=("verif" "verif decimal_pure_go" "verif math_big_pure_go" "verif decimal_pure_go math_big_pure_go")
 python3 "$here/scripts/overlay.py" "$work/ovl" || exit 2
 pids=()
+mf="$(modflag "$work")"   # once: the four builds run in parallel and would otherwise rewrite the same go.mod
 for i in 0 1 2 3; do
-  ( cd "$here/mc" && go build $(modflag "$work") -tags "${tags[$i]}" -overlay "$work/ovl/overlay.json" -o "$work/bin.$i" . ) 2> "$work/err.$i" &
+  ( cd "$here/mc" && go build $mf -tags "${tags[$i]}" -overlay "$work/ovl/overlay.json" -o "$work/bin.$i" . ) 2> "$work/err.$i" &
   pids+=($!)
 done
 for i in 0 1 2 3; do
